@@ -131,10 +131,14 @@ def rule_cwd_taint(ctx, r):
         m = idx.method(ctxc, prop)
         rets = [ast.unparse(x.value) for x in walk_no_nested(m.node) if isinstance(x, ast.Return)] if m else []
         r.check(rets == [want], f"{ctxc.module.relpath}::Context.{prop}", want, f"Context.{prop} is {rets}", ctxc.where)
-    for key, fn in (("gwf.core:get_spec_hashes", "working_dir"), ("gwf.backends.base:TrackingBackend._get_state_path", "self.working_dir")):
-        f = idx.func(key)
-        t = ast.unparse(f.node)
-        r.check(f"os.path.join({fn}, '.gwf'" in t, f"{f.module.relpath}::{f.qual}", f"state file under {fn}/.gwf", f"{f.qual} does not place its state file under {fn}/.gwf", f.where)
+    from .evalhelpers import eval_get_spec_hashes, load_path
+    sel, gsh = eval_get_spec_hashes(ctx)
+    r.check(isinstance(sel.get(True), tuple) and sel[True][1] and str(sel[True][1][0]).startswith(tok("WD") + "/.gwf/"), f"{gsh.module.relpath}::{gsh.qual}",
+            "spec-hash file under <project>/.gwf", f"get_spec_hashes places its file at {sel.get(True)}", gsh.where)
+    lp = load_path(ctx, "gwf.backends.base:TrackingBackend", "_tracked_jobs")
+    tb = idx.cls("gwf.backends.base:TrackingBackend")
+    r.check(lp is not None and lp.startswith("⟦PROJ⟧/.gwf/"), f"{tb.module.relpath}::TrackingBackend.state-path", "tracked-jobs file under <project>/.gwf",
+            f"the tracked-jobs file is {lp}", tb.where)
 
 
 def _regex_facts(pattern):
